@@ -15,6 +15,13 @@ from leaspy.utils.typing import DictParams, DictParamsTorch, IDType, ParamType
 __all__ = ["IndividualParameters"]
 
 
+def _numpy_scalar_to_python(value):
+    """Fallback of ``json.dump`` for values it can not serialize: numpy scalars become Python scalars."""
+    if isinstance(value, np.generic):
+        return value.item()
+    raise TypeError(f"Object of type {type(value).__name__} is not JSON serializable")
+
+
 class IndividualParameters:
     r"""
     Data container for individual parameters, contains IDs, timepoints and observations values.
@@ -670,8 +677,8 @@ class IndividualParameters:
             "parameters_shape": self._parameters_shape,
         }
 
-        # Default json.dump kwargs:
-        kwargs = {"indent": 2, **kwargs}
+        # Default json.dump kwargs (numpy scalars are accepted values but are not JSON serializable as such):
+        kwargs = {"indent": 2, "default": _numpy_scalar_to_python, **kwargs}
 
         with open(path, "w") as f:
             json.dump(json_data, f, **kwargs)
